@@ -773,19 +773,19 @@ def run_oversub(ctx, items, out):
         if any(m is None for m in masks):
             out["fails"].append(("corr", "a derived problem of the oversubscription planner is not 'goals + (g | not g) per soft goal'",
                                  ["c31", "oversub", "derived-problem-shape"], rec, p, False))
-            continue
-        rec["queries"] = ["".join("1" if b else "0" for b in m) for m in masks]
-        plans = {}
+        else:
+            rec["queries"] = ["".join("1" if b else "0" for b in m) for m in masks]
+            plans = {}
 
-        def pid(plan):
-            k = plan_key(plan)
-            return None if k is None else plans.setdefault(k, len(plans))
-        table = [gpair(gmask(m), gpair(STATUS[status_name(c["status"])], gopt(None if c["plan"] is None else gn(pid(c["plan"])))))
-                 for m, c in zip(masks, calls)]
-        ocase = "{| oc_ws := %s; oc_table := %s; oc_queries := %s; oc_result := %s |}" % (
-            glist([gqc(w) for _, w in soft]), glist(table), glist([gmask(m) for m in masks]),
-            gpair(STATUS[rec["status"]], gopt(None if res.plan is None else gn(pid(res.plan)))))
-        out["replay"].append(("RO (%s)" % ocase, rec, p, "oversub"))
+            def pid(plan, plans=plans):
+                k = plan_key(plan)
+                return None if k is None else plans.setdefault(k, len(plans))
+            table = [gpair(gmask(m), gpair(STATUS[status_name(c["status"])], gopt(None if c["plan"] is None else gn(pid(c["plan"])))))
+                     for m, c in zip(masks, calls)]
+            ocase = "{| oc_ws := %s; oc_table := %s; oc_queries := %s; oc_result := %s |}" % (
+                glist([gqc(w) for _, w in soft]), glist(table), glist([gmask(m) for m in masks]),
+                gpair(STATUS[rec["status"]], gopt(None if res.plan is None else gn(pid(res.plan)))))
+            out["replay"].append(("RO (%s)" % ocase, rec, p, "oversub"))
         # ---- oracle case
         rec["py_states"] = len(pr.states)
         rec["py_max_gain"] = None if pr.max_gain(soft) is None else str(pr.max_gain(soft))
@@ -1023,6 +1023,8 @@ def run_ifplanner(ctx, gens, out):
         if pr.goal_states and (res is None or res.plan is None):
             bad.append("gives-up-on-solvable")
             bad.append("raises-internal-error" if internal else "answer-" + rec["status"])
+            if not internal and rec["status"] == "UNSOLVABLE_PROVEN":
+                bad.append("unsolvable-proven-but-solvable")
         if res is not None and rec["status"] in ("SOLVED_SATISFICING", "SOLVED_OPTIMALLY") and res.plan is None:
             bad.append("positive-status-without-plan")
         rec["py"] = bad
@@ -1046,6 +1048,8 @@ def run_ifplanner(ctx, gens, out):
         if relax_bad:
             stats["relaxation_violations"] += len(relax_bad)
             stats["problems_with_relaxation_violation"] += 1
+            out["relax_examples"].append({"label": label, "shape": shape, "answer": rec["status"] or rec["raised"],
+                                          "solved": bool(res is not None and res.plan is not None), "violations": relax_bad[:2]})
         if len(pr.states) > out["coq_state_cap"] or not pr.complete:
             stats["if_coq_oracle_skipped_large"] += 1
             if bad:
@@ -1100,20 +1104,24 @@ def run(ctx):
     from collections import Counter
     ok_proofs = ctx.check_props(extra=["theories/Corr/Corr_C31.v"])
     rng = ctx.rng
-    out = {"defs": {}, "npi": 0, "replay": [], "oracle": [], "fails": [], "stats": Counter(),
-           "coq_state_cap": 150 if ctx.quick else 500, "relax_len": 3 if ctx.quick else 4, "relax_cap": 12 if ctx.quick else 40}
+    out = {"defs": {}, "npi": 0, "relax_examples": [], "replay": [], "oracle": [], "fails": [], "stats": Counter(),
+           "coq_state_cap": 120 if ctx.quick else 500, "relax_len": 3 if ctx.quick else 4, "relax_cap": 12 if ctx.quick else 40}
     import time
     out["times"] = {}
     t0 = time.time()
-    n_over = 34 if ctx.quick else 400
-    n_if = 64 if ctx.quick else 700
-    n_c01if = 8 if ctx.quick else 100
+    n_over = 36 if ctx.quick else 300
+    n_if = 90 if ctx.quick else 700
+    n_c01if = 10 if ctx.quick else 100
     # ---------------- oversubscription
     items = [(hp, None) for hp in oversub_corpus()]
     items += [(hp, None) for hp in sx.metric_corpus() if hp.label == "metric-oversub"]
     items += [(hp, 2) for hp in oversub_corpus()[:4]]                 # an engine that gives up early: incomplete answers
     for i in range(n_over):
         g = gen_oversub(rng)
+        for _ in range(5):           # the meta engines do not accept Boolean action parameters: draw again
+            if supported(g.problem, OVERSUB):
+                break
+            g = gen_oversub(rng)
         items.append((g, None if rng.random() < 0.85 else rng.randint(1, 4)))
     run_oversub(ctx, items, out)
     out["times"]["oversub_python"] = round(time.time() - t0, 1)
@@ -1148,7 +1156,7 @@ def run(ctx):
     # ---------------- Coq: oracle (chunks of problems, each file defines only its own problems)
     from concurrent.futures import ThreadPoolExecutor
     pis = sorted(set(o[0] for o in out["oracle"]))
-    per = 14
+    per = max(1, (len(pis) + 1) // 2) if ctx.quick else 60        # quick: one file per worker (coqc start-up dominates)
     chunks = [pis[i:i + per] for i in range(0, len(pis), per)]
 
     def one(ci_chunk):
@@ -1217,6 +1225,7 @@ def run(ctx):
         "samples": samples,
         "distribution": dict(stats),
         "failure_tags": dict(ftags),
+        "relaxation_violation_examples": out["relax_examples"][:8],
         "phase_seconds": out["times"],
         "traces_validated_against_impl": len(out["replay"]),
         "states": sum(o[3][0].get("py_states", 0) for o in out["oracle"] if o[1] != "CR"),
